@@ -279,6 +279,7 @@ func runWorldW(rc *RunCtx, prop, driver string) *RunResult {
 	}
 
 	w.passKind = "startup"
+	k.Cleanup = func() { w.writer.Stop() }
 	k.SetCur("W")
 	w.writer.Start()
 
